@@ -257,19 +257,19 @@ def run(ctx):
 
 def replay(ctx, path):
     """./check C03 --replay <file>: re-run one stored case (replay file or corpus file) on the implementation and the model"""
+    from .. import sm
     j = json.load(open(path))
     ops = j["case"]["ops"] if "case" in j else j["ops"]
     ok = build_and_audit(ctx, "XgiModel.Props.C03", ["XgiModel.C03.Drive"])
     ctx.rule = "replay of " + path
-    dis, hist = run_sm(ctx, _NoCorpus, "SC", FIELDS, pred, 0, derive=derive, extra_histories=[ops],
-                       corr_name="correspondence SC~SimplicialComplex (full snapshot)")
+    saved, sm.load_corpus = sm.load_corpus, (lambda prop: [])
+    try:
+        dis, hist = run_sm(ctx, M, "SC", FIELDS, pred, 0, derive=derive, extra_histories=[ops],
+                           corr_name="correspondence SC~SimplicialComplex (full snapshot)")
+    finally:
+        sm.load_corpus = saved
     for d in ctx.extra.get("disagreements", []):
         print("DISAGREEMENT", json.dumps(d)[:1500])
     conclude(ctx, ok, dis, hist)
     ctx.assumptions = ASSUMPTIONS
     return finish(ctx, trusted_base=TRUSTED)
-
-
-import types as _types  # noqa: E402
-
-_NoCorpus = _types.SimpleNamespace(**{n: getattr(M, n) for n in dir(M) if not n.startswith("__")})
